@@ -98,6 +98,73 @@ ReadPrefixB(B, cut) ==
     IF cut \in BoundariesB(B) THEN {"eof"} ELSE {"eof", "ueof"}>>
 ReadPrefix(sc, cut) == ReadPrefixB(Blocks(sc), cut)
 
+(* ------------------------------ layout map -------------------------------- *)
+\* Every field of every header, block, option and record: [n (locator), off, w (bytes), v (true value, -1 = opaque),
+\* t (value type: len32 num32 num16 code res type bom magic raw)].  Locators name the block kind and the field (options by
+\* their code), not the ordinal of the block, so that they are stable across scenarios.
+Fld(n, off, w, v, t) == [n |-> n, off |-> off, w |-> w, v |-> v, t |-> t]
+
+RECURSIVE OptFields(_, _, _, _)
+OptFields(pre, os, i, p) ==
+  IF i > Len(os)
+  THEN IF Len(os) = 0 THEN <<>> ELSE <<Fld(pre \o ".eoo.code", p, 2, 0, "code"), Fld(pre \o ".eoo.len", p + 2, 2, 0, "num16")>>
+  ELSE LET c == os[i][1]
+           l == os[i][2]
+           nm == pre \o ".opt" \o ToString(c)
+       IN <<Fld(nm \o ".code", p, 2, c, "code"), Fld(nm \o ".len", p + 2, 2, l, "num16")>>
+          \o (IF pre = "idb" /\ c = 9 THEN <<Fld(nm \o ".val", p + 4, 1, 9, "res")>>
+              ELSE IF pre = "idb" /\ c = 14 THEN <<Fld(nm \o ".val.lo", p + 4, 4, -1, "num32"), Fld(nm \o ".val.hi", p + 8, 4, 0, "num32")>>
+              ELSE <<>>)
+          \o OptFields(pre, os, i + 1, p + OptLen(l))
+
+RECURSIVE NrbFields(_, _, _)
+NrbFields(recs, i, p) ==
+  IF i > Len(recs) THEN <<Fld("nrb.end.type", p, 2, 0, "num16"), Fld("nrb.end.len", p + 2, 2, 0, "num16")>>
+  ELSE <<Fld("nrb.rec.type", p, 2, recs[i].rt, "num16"), Fld("nrb.rec.len", p + 2, 2, recs[i].al + recs[i].nl, "num16")>>
+       \o NrbFields(recs, i + 1, p + NrbRecLen(recs[i]))
+
+NgBlockType(k) == CASE k = "idb" -> 1 [] k = "spb" -> 3 [] k = "nrb" -> 4 [] k = "isb" -> 5 [] k = "pkt" -> 6 [] k = "dsb" -> 10 [] OTHER -> -1
+BlockFields(sc, b) ==
+  LET o == b.off
+      it == IF b.item > 0 THEN sc.items[b.item] ELSE [t |-> "head"]
+      kn == IF b.k = "pkt" THEN "epb" ELSE IF b.k = "head" THEN "shb" ELSE b.k
+      frame == <<Fld(kn \o ".type", o, 4, NgBlockType(b.k), "type"), Fld(kn \o ".totlen", o + 4, 4, b.len, "len32"),
+                 Fld(kn \o ".totlen2", o + b.len - 4, 4, b.len, "len32")>>
+  IN
+  CASE sc.fmt = "pcap" /\ b.k = "head" ->
+         <<Fld("pcap.magic", 0, 4, -1, "magic"), Fld("pcap.vmajor", 4, 2, 2, "num16"), Fld("pcap.vminor", 6, 2, 4, "num16"),
+           Fld("pcap.snaplen", 16, 4, sc.snap, "len32"), Fld("pcap.linktype", 20, 4, sc.link, "num32")>>
+    [] sc.fmt = "pcap" /\ b.k = "pkt" ->
+         <<Fld("rec.sec", o, 4, -1, "num32"), Fld("rec.frac", o + 4, 4, -1, "num32"),
+           Fld("rec.caplen", o + 8, 4, it.cap, "len32"), Fld("rec.len", o + 12, 4, it.len, "len32")>>
+    [] sc.fmt = "snoop" /\ b.k = "head" ->
+         <<Fld("snoop.magic.hi", 0, 4, -1, "raw"), Fld("snoop.magic.lo", 4, 4, -1, "raw"),
+           Fld("snoop.version", 8, 4, 2, "num32"), Fld("snoop.linktype", 12, 4, sc.link, "num32")>>
+    [] sc.fmt = "snoop" /\ b.k = "pkt" ->
+         <<Fld("srec.origlen", o, 4, it.len, "len32"), Fld("srec.incllen", o + 4, 4, it.cap, "len32"),
+           Fld("srec.reclen", o + 8, 4, b.len, "len32"), Fld("srec.drops", o + 12, 4, 0, "num32"),
+           Fld("srec.sec", o + 16, 4, -1, "num32"), Fld("srec.usec", o + 20, 4, -1, "num32")>>
+    [] sc.fmt = "ng" /\ b.k = "head" ->
+         frame \o <<Fld("shb.bom", o + 8, 4, -1, "bom"), Fld("shb.vmajor", o + 12, 2, 1, "num16"), Fld("shb.vminor", o + 14, 2, 0, "num16"),
+                    Fld("shb.seclen.lo", o + 16, 4, -1, "num32"), Fld("shb.seclen.hi", o + 20, 4, -1, "num32")>>
+               \o OptFields("shb", ShbOpts(sc.shb), 1, o + 24)
+    [] sc.fmt = "ng" /\ b.k = "idb" ->
+         frame \o <<Fld("idb.linktype", o + 8, 2, it.link, "num16"), Fld("idb.snaplen", o + 12, 4, it.snap, "len32")>>
+               \o OptFields("idb", IdbOpts(it), 1, o + 16)
+    [] sc.fmt = "ng" /\ b.k = "pkt" ->
+         frame \o <<Fld("epb.ifid", o + 8, 4, it.ifc, "num32"), Fld("epb.ts.hi", o + 12, 4, -1, "num32"), Fld("epb.ts.lo", o + 16, 4, -1, "num32"),
+                    Fld("epb.caplen", o + 20, 4, it.cap, "len32"), Fld("epb.len", o + 24, 4, it.len, "len32")>>
+               \o OptFields("epb", EpbOpts(it), 1, o + 28 + Pad4(it.cap))
+    [] sc.fmt = "ng" /\ b.k = "isb" ->
+         frame \o <<Fld("isb.ifid", o + 8, 4, it.ifc, "num32")>> \o OptFields("isb", IsbOpts(it), 1, o + 20)
+    [] sc.fmt = "ng" /\ b.k = "dsb" ->
+         frame \o <<Fld("dsb.secrettype", o + 8, 4, -1, "num32"), Fld("dsb.secretlen", o + 12, 4, it.n, "len32")>>
+    [] sc.fmt = "ng" /\ b.k = "nrb" -> frame \o NrbFields(it.recs, 1, o + 8)
+    [] sc.fmt = "ng" /\ b.k = "spb" -> frame \o <<Fld("spb.origlen", o + 8, 4, it.cap, "len32")>>
+RECURSIVE FieldsFrom(_, _, _)
+FieldsFrom(sc, B, i) == IF i > Len(B) THEN <<>> ELSE BlockFields(sc, B[i]) \o FieldsFrom(sc, B, i + 1)
+Fields(sc) == FieldsFrom(sc, Blocks(sc), 1)
+
 (* ---------------------- what a reader must hand back --------------------- *)
 \* timestamps at the resolution of the file: classic microsecond files drop the sub-microsecond part
 ExpNs(sc, ns) == IF sc.fmt = "pcap" /\ ~sc.nano THEN (ns \div 1000) * 1000
